@@ -51,6 +51,18 @@ type LookupSpec struct {
 	Keys  []uint64      `json:"keys"`
 }
 
+// Trigger places a membership operation right after an observed RPC of another
+// membership change (faults and operations are biased to land inside or just
+// after a change, where the in-flight state is).
+type Trigger struct {
+	OnMethod string        `json:"on_method"` // RequestToJoin | FinishJoin | RequestToLeave | FinishLeave | Import
+	Nth      int           `json:"nth"`
+	Target   string        `json:"target"` // caller | callee | pred-of-caller | succ-of-caller | pred-of-callee | succ-of-callee
+	Kind     string        `json:"kind"`   // leave | join-before (a spare node whose id lands just before the target joins via the target)
+	Delay    time.Duration `json:"delay"`
+	Spare    uint64        `json:"spare_offset,omitempty"`
+}
+
 type SchedSpec struct {
 	Kind   string  `json:"kind"` // random | sticky | pct
 	Sticky float64 `json:"sticky,omitempty"`
@@ -58,6 +70,15 @@ type SchedSpec struct {
 	// probability of skipping the yield at hot uncontended lock sites
 	SkipFinger float64 `json:"skip_finger"`
 	SkipOther  float64 `json:"skip_other"`
+	// stalled goroutines: probability per scheduling point and maximum duration
+	StallProb float64       `json:"stall_prob"`
+	StallMax  time.Duration `json:"stall_max"`
+	// victim sites: a site whose hash mixed with VictimSalt is 0 modulo
+	// VictimMod stalls the task that reaches it with probability 1/2 (a random
+	// small subset of sites per run, FoundationDB "buggify" style)
+	VictimSalt uint64 `json:"victim_salt"`
+	VictimMod  uint64 `json:"victim_mod"`
+	StallBudget int   `json:"stall_budget"` // at most this many stalls per run: most of the run makes progress
 }
 
 type Plan struct {
@@ -73,6 +94,7 @@ type Plan struct {
 	Clients  []ClientSpec        `json:"clients,omitempty"`
 	Lookups  []LookupSpec        `json:"lookups,omitempty"`
 	Faults   []*simnet.Targeted  `json:"faults,omitempty"`
+	Triggers []Trigger           `json:"triggers,omitempty"`
 	Buggify  bool                `json:"buggify"`
 	MaxQuiet int                 `json:"max_quiet_periods"`
 	FinalLookups int             `json:"final_lookups,omitempty"`
@@ -145,6 +167,11 @@ func genSched(r *simrt.Rand) SchedSpec {
 	}
 	s.SkipFinger = pick(r, 0.9, 0.97, 1.0)
 	s.SkipOther = pick(r, 0.0, 0.0, 0.3, 0.6)
+	s.StallProb = pick(r, 0, 0, 1e-4, 5e-4, 2e-3)
+	s.StallMax = pick(r, 20*time.Millisecond, 300*time.Millisecond, time.Second)
+	s.StallBudget = pick(r, 10, 40, 150)
+	s.VictimSalt = r.Uint64()
+	s.VictimMod = pick(r, uint64(0), 8, 16, 32)
 	return s
 }
 
@@ -288,6 +315,19 @@ func GenPlan(prop string, seed uint64, tier string) *Plan {
 				ls.Keys = append(ls.Keys, pick(r, r.Uint64()%ringSize, ids[r.Intn(n)], (ids[r.Intn(n)]+1)%ringSize, hashes[r.Intn(len(hashes))]))
 			}
 			p.Lookups = append(p.Lookups, ls)
+		}
+	}
+	if churn || prop == "C09" {
+		nt := r.Intn(4)
+		for i := 0; i < nt; i++ {
+			p.Triggers = append(p.Triggers, Trigger{
+				OnMethod: pick(r, "RequestToJoin", "FinishJoin", "FinishJoin", "RequestToLeave", "FinishLeave", "FinishLeave", "Import"),
+				Nth:      1 + r.Intn(8),
+				Target:   pick(r, "caller", "callee", "pred-of-caller", "succ-of-caller", "pred-of-callee", "succ-of-callee"),
+				Kind:     pick(r, "leave", "leave", "join-before"),
+				Delay:    pick(r, 0, 0, time.Duration(r.Int63n(int64(20*time.Millisecond))), time.Duration(r.Int63n(int64(p.Stab)))),
+				Spare:    1 + r.Uint64()%1000,
+			})
 		}
 	}
 	p.FinalLookups = 16
